@@ -134,8 +134,10 @@ package websocket
 //@   prop C09 C10
 //@   nopanic
 //@   requires c != nil && c.results != nil
+//@   requires [index_not_pending] !haskey(c.results, index)
 //@   modifies c.results[*], ghost.held[addr(c.lock)]
 //@   ensures [registered] haskey(c.results, index) && c.results[index] == resultChan
+//@   ensures [other_registrations_untouched] forall(k, k != index ==> haskey(c.results, k) == old(haskey(c.results, k)) && c.results[k] == old(c.results[k]))
 //@   ensures [lock_released] ghost.held[addr(c.lock)] == 0
 
 //@ func (*conn).delete
@@ -144,6 +146,7 @@ package websocket
 //@   requires c != nil
 //@   modifies c.results[*], ghost.held[addr(c.lock)]
 //@   ensures [unregistered] !haskey(c.results, index)
+//@   ensures [other_registrations_untouched] forall(k, k != index ==> haskey(c.results, k) == old(haskey(c.results, k)) && c.results[k] == old(c.results[k]))
 //@   ensures [lock_released] ghost.held[addr(c.lock)] == 0
 
 //@ func (*conn).loadAndDelete
@@ -154,6 +157,7 @@ package websocket
 //@   ensures [found_iff_registered] loaded == old(haskey(c.results, index))
 //@   ensures [returns_the_registered_channel] loaded ==> resultChan == old(c.results[index])
 //@   ensures [entry_removed] !haskey(c.results, index)
+//@   ensures [other_registrations_untouched] forall(k, k != index ==> haskey(c.results, k) == old(haskey(c.results, k)) && c.results[k] == old(c.results[k]))
 //@   ensures [lock_released] ghost.held[addr(c.lock)] == 0
 
 //@ func (*conn).send
